@@ -2,6 +2,7 @@ mod backoff;
 mod decoders;
 mod net;
 mod net_c03;
+mod net_c04;
 mod sim;
 mod sim_ps;
 mod sim_rr;
@@ -22,6 +23,7 @@ fn main() {
         "topic" => topic::main(&args[1..]),
         "transforms" => transforms::main(&args[1..]),
         "c03" => net_c03::main(&args[1..]),
+        "c04" => net_c04::main(&args[1..]),
         "ps" => sim_ps::main(&args[1..]),
         "rr" => sim_rr::main(&args[1..]),
         "decoders" => decoders::main(&args[1..]),
